@@ -82,6 +82,17 @@ func (p *Parser) scanIgnoreWhitespace() (tok Token, lit string) {
 	return
 }
 
+// scanWord scans the next non-whitespace token at a place where the grammar
+// expects a taxon name or sequence data: there, a word spelled like a keyword
+// ("DATA", "END", "GAP", ...) is an ordinary identifier.
+func (p *Parser) scanWord() (tok Token, lit string) {
+	tok, lit = p.scanIgnoreWhitespace()
+	if tok >= NEXUS && tok != EQUAL {
+		tok = IDENT
+	}
+	return
+}
+
 // Parses Nexus content from the reader
 func (p *Parser) Parse() (al align.Alignment, err error) {
 	var nchar, ntax, taxantax int64
@@ -288,7 +299,7 @@ func (p *Parser) parseTaxa() (int64, map[string]bool, error) {
 		case TAXLABELS:
 			stoplabels := false
 			for !stoplabels {
-				tok2, lit2 := p.scanIgnoreWhitespace()
+				tok2, lit2 := p.scanWord()
 				switch tok2 {
 				case ENDOFCOMMAND:
 					stoplabels = true
@@ -490,7 +501,7 @@ func (p *Parser) parseData() (names []string, sequences map[string]string, nchar
 			// So far: Does not handle interleave case...
 			stopmatrix := false
 			for !stopmatrix {
-				tok2, lit2 := p.scanIgnoreWhitespace()
+				tok2, lit2 := p.scanWord()
 				switch tok2 {
 				case OPENBRACK:
 					if tok2, lit2, err = p.consumeComment(tok2, lit2); err != nil {
@@ -504,7 +515,7 @@ func (p *Parser) parseData() (names []string, sequences map[string]string, nchar
 					name := lit2
 					sequence := ""
 					for !stopseq {
-						tok3, lit3 := p.scanIgnoreWhitespace()
+						tok3, lit3 := p.scanWord()
 						switch tok3 {
 						case IDENT:
 							sequence = sequence + lit3
